@@ -37,6 +37,9 @@ NODE_KEYS = ["head", "demand", "pressure", "leak_demand"]
 LINK_KEYS = ["flowrate", "velocity", "status", "setting"]
 
 
+ZERO_SAFE = [False]  # set by the translator: NewtonSolver.solve binds outer_iter / iter_bt before the loops
+SCIPY_NONLIN = ["diagbroyden", "broyden1", "newton_krylov", "anderson"]
+LOW_KINDS = ["sp-valueerror", "sp-fpe", "sp-shape", "sp-noconv"]
 PREFIX_DEV = [0.0]  # largest relative deviation seen between a failing run's rows and its reference run's rows
 
 
@@ -111,6 +114,7 @@ def random_spec(rng, quick, trial_flip=False, odd_options=False):
     hyd = o["hydraulic_timestep"]
     o["duration"] = hyd * rng.randint(1, 4 if quick else 6)
     o["trials"] = rng.choice([0, 1, 2, 3]) if trial_flip else rng.choice([200, 200, 40, 5])
+    unbalanced = rng.choice(["STOP", "CONTINUE"]) if trial_flip else rng.choice([None, None, "CONTINUE"])
     if odd_options:
         r = rng.random()
         if r < 0.25:
@@ -125,16 +129,18 @@ def random_spec(rng, quick, trial_flip=False, odd_options=False):
         else:
             o["report_timestep"] = 3 * hyd
     spec = add_controls(rng, spec, trial_flip=trial_flip)
+    if unbalanced is not None:
+        spec["c16_unbalanced"] = unbalanced  # [OPTIONS] UNBALANCED: WNTRSimulator has no "continue after a failed status iteration"
     if rng.random() < 0.3:  # NewtonSolver options off their defaults (limits >= 1: 0 dies with UnboundLocalError, Props/C16Newton)
         so = {}
         if rng.random() < 0.5:
-            so["MAXITER"] = rng.choice([2, 4, 10, 50])
+            so["MAXITER"] = rng.choice([2, 4, 10, 50] + ([0] if ZERO_SAFE[0] else []))
         if rng.random() < 0.4:
             so["BACKTRACKING"] = False
         if rng.random() < 0.4:
             so["BT_START_ITER"] = rng.choice([1, 2, 3])
         if rng.random() < 0.4:
-            so["BT_MAXITER"] = rng.choice([1, 2, 5])
+            so["BT_MAXITER"] = rng.choice([1, 2, 5] + ([0] if ZERO_SAFE[0] else []))
         if rng.random() < 0.3:
             so["BT_RHO"] = rng.choice([0.3, 0.8])
         if rng.random() < 0.3:
@@ -161,6 +167,10 @@ def build(wntr, spec):
         wn.options.time.report_start = spec["c16_report_start"]
     if "c16_rule_timestep" in spec:
         wn.options.time.rule_timestep = spec["c16_rule_timestep"]
+    if "c16_unbalanced" in spec:
+        wn.options.hydraulic.unbalanced = spec["c16_unbalanced"]
+        if spec["c16_unbalanced"] == "CONTINUE":
+            wn.options.hydraulic.unbalanced_value = 10
     for i, c in enumerate(spec.get("c16_controls", [])):
         if c["kind"] == "flip":
             p = wn.get_link(c["pipe"])
@@ -326,6 +336,32 @@ def observe_run(spec, plan=None, backup=None, conv_err=False, max_calls=None, ke
                 res = orig_helper(model, solver, solver_options)
             finally:
                 spla.spsolve = orig_spsolve
+        elif kind in LOW_KINDS and solver is not NewtonSolver:
+            # the REAL _solver_helper runs; the scipy callable it calls is replaced for this one call
+            name = solver.__name__
+
+            def faulty(F, x0, *a, **k):
+                if name == "fsolve":  # only `ier` is a documented failure report of fsolve
+                    return (x0, {}, 5, "The iteration is not making good progress")
+                if kind == "sp-valueerror":
+                    raise ValueError("array must not contain infs or NaNs")
+                if kind == "sp-fpe":
+                    raise FloatingPointError("overflow encountered in the nonlinear solver")
+                if kind == "sp-shape":
+                    return np.zeros(len(x0) + 3)
+                try:
+                    from scipy.optimize import NoConvergence
+                except ImportError:
+                    from scipy.optimize._nonlin import NoConvergence
+                raise NoConvergence("injected")
+
+            faulty.__name__ = name
+            real = getattr(scipy.optimize, name)
+            setattr(scipy.optimize, name, faulty)
+            try:
+                res = orig_helper(model, faulty, solver_options)
+            finally:
+                setattr(scipy.optimize, name, real)
         elif kind is not None:
             model.set_structure()
             res = (SolverStatus.error, "injected failure", 0)
@@ -355,13 +391,19 @@ def observe_run(spec, plan=None, backup=None, conv_err=False, max_calls=None, ke
     kw = {"convergence_error": conv_err}
     if solver == "fsolve":
         kw["solver"] = scipy.optimize.fsolve
+    elif solver in SCIPY_NONLIN:
+        kw["solver"] = getattr(scipy.optimize, solver)
+        kw["solver_options"] = {"maxiter": 60}
     if backup == "newton":
         kw["backup_solver"] = NewtonSolver
         kw["backup_solver_options"] = {"MAXITER": 500}
     elif backup == "fsolve":
         kw["backup_solver"] = scipy.optimize.fsolve
+    elif backup in SCIPY_NONLIN:
+        kw["backup_solver"] = getattr(scipy.optimize, backup)
+        kw["backup_solver_options"] = {"maxiter": 60}
     solver_options = solver_options or spec.get("c16_solver_options")
-    if solver_options and solver is None:  # NewtonSolver option names; the scipy solvers take other keywords
+    if solver_options and solver is None:  # NewtonSolver option names; the scipy solvers take other keywords (set above)
         kw["solver_options"] = dict(solver_options)
     core._solver_helper = helper
     NewtonSolver.solve = solve_wrapper
@@ -696,6 +738,8 @@ _N_ACTS = {
     "alpha = alpha * self.rho": "shrink",
     "x += d": "plainStep",
     "model.load_var_values_from_x(x)": "loadX",
+    "outer_iter = 0": "initOuterIter",
+    "iter_bt = -1": "initIterBt",
 }
 _N_PAIRS = {
     ("r = r_", "r_norm = new_norm"): "useStored",
@@ -823,10 +867,77 @@ def newton_shape_from_source(path):
                 defaults[_N_DEFAULTS[key]] = ast.literal_eval(st.body[0].value)
     if set(defaults) != set(_N_DEFAULTS.values()):
         raise vlib.BrokenTie("NewtonSolver.__init__ defaults not recognised: %s" % sorted(defaults))
+    # variant: are the loop variables bound before the loops (fix C16-newton-zero-limits)?
+    io, ib = ".act .initOuterIter" in body, ".act .initIterBt" in body
+    if io != ib:
+        raise vlib.BrokenTie("only one of `outer_iter = 0` / `iter_bt = -1` is present in NewtonSolver.solve")
+    defaults["zeroSafe"] = io
     return defaults, body
 
 
-def gen_newton_lean(defaults, body):
+def helper_shape_from_source(path):
+    """Python ast of `_solver_helper` (wntr/sim/core.py): its branches and WHICH exceptions of the scipy solvers are caught"""
+    import ast
+
+    tree = ast.parse(open(path).read())
+    fn = [n for n in tree.body if isinstance(n, ast.FunctionDef) and n.name == "_solver_helper"]
+    if not fn:
+        raise vlib.BrokenTie("_solver_helper not found in %s" % path)
+    body = [st for st in fn[0].body if not (isinstance(st, ast.Expr) and (isinstance(st.value, ast.Constant) or
+                                            (isinstance(st.value, ast.Call) and ast.unparse(st.value.func).startswith("logger."))))]
+    srcs = [ast.unparse(st) for st in body]
+    if len(body) != 3 or srcs[0] != "model.set_structure()" or srcs[2] != "return sol" or not isinstance(body[1], ast.If):
+        raise vlib.BrokenTie("_solver_helper is no longer `set_structure(); if/elif chain; return sol`: %s" % [x[:40] for x in srcs])
+    br = body[1]
+    sh = {}
+
+    def same(stmts, srcs):
+        return [ast.dump(x) for x in stmts] == [_canon(t, "exec") for t in srcs]
+
+    # branch 1
+    sh["newtonFirst"] = (ast.unparse(br.test) == "solver is NewtonSolver" and
+                         same(br.body, ["_solver = NewtonSolver(solver_options)", "sol = _solver.solve(model)"]))
+    if len(br.orelse) != 1 or not isinstance(br.orelse[0], ast.If):
+        raise vlib.BrokenTie("_solver_helper: second branch missing")
+    b2 = br.orelse[0]
+    want2 = ["x, infodict, ier, mesg = solver(model.evaluate_residuals, model.get_x(), **solver_options)",
+             "if ier != 1:\n    sol = (SolverStatus.error, mesg, None)\nelse:\n    model.load_var_values_from_x(x)\n    sol = (SolverStatus.converged, mesg, None)"]
+    sh["fsolveByIer"] = ast.unparse(b2.test) == "solver is scipy.optimize.fsolve" and same(b2.body, want2)
+    if len(b2.orelse) != 1 or not isinstance(b2.orelse[0], ast.If):
+        raise vlib.BrokenTie("_solver_helper: third branch missing")
+    b3 = b2.orelse[0]
+    t = b3.test
+    if not (isinstance(t, ast.Compare) and ast.unparse(t.left) == "solver" and isinstance(t.ops[0], ast.In) and isinstance(t.comparators[0], ast.Set)):
+        raise vlib.BrokenTie("_solver_helper: third branch is not `solver in {...}`")
+    names = []
+    for e in t.comparators[0].elts:
+        u = ast.unparse(e)
+        if not u.startswith("scipy.optimize."):
+            raise vlib.BrokenTie("_solver_helper: unknown solver " + u)
+        names.append(u[len("scipy.optimize."):])
+    sh["scipySolvers"] = names
+    if len(b3.body) != 1 or not isinstance(b3.body[0], ast.Try):
+        raise vlib.BrokenTie("_solver_helper: the scipy branch is not a single try statement")
+    tr = b3.body[0]
+    want_try = ["x = solver(model.evaluate_residuals, model.get_x(), **solver_options)", "model.load_var_values_from_x(x)",
+                "sol = (SolverStatus.converged, '', None)"]
+    if not same(tr.body, want_try) or tr.orelse or tr.finalbody or len(tr.handlers) != 1:
+        raise vlib.BrokenTie("_solver_helper: unexpected body of the try around the scipy solvers")
+    h = tr.handlers[0]
+    hb = [ast.unparse(x) for x in h.body if not (isinstance(x, ast.Expr) and isinstance(x.value, ast.Constant))]
+    if len(hb) != 1 or not hb[0].startswith("sol = (SolverStatus.error, "):
+        raise vlib.BrokenTie("_solver_helper: the except handler does not set SolverStatus.error: %s" % hb)
+    if h.type is None:
+        sh["scipyCatch"] = ".all"
+    else:
+        ts = h.type.elts if isinstance(h.type, ast.Tuple) else [h.type]
+        cls = [ast.unparse(x).split(".")[-1] for x in ts]
+        sh["scipyCatch"] = ".all" if ("Exception" in cls or "BaseException" in cls) else "(.only [%s])" % ", ".join('"%s"' % c for c in cls)
+    sh["elseRaises"] = same(b3.orelse, ["raise ValueError('Solver not recognized.')"])
+    return sh
+
+
+def gen_newton_lean(defaults, body, hshape):
     from fractions import Fraction
 
     return "\n".join([
@@ -840,9 +951,16 @@ def gen_newton_lean(defaults, body):
         "",
         "/-- the defaults of `NewtonSolver.__init__` (doubles as exact rationals); `c1` = the literal 0.0001 of the decrease test -/",
         "def defaults : Opts :=",
-        "  { maxiter := %d, tol := %s, rho := %s, btMaxiter := %d, bt := %s, btStartIter := %d, c1 := %s }"
+        "  { maxiter := %d, tol := %s, rho := %s, btMaxiter := %d, bt := %s, btStartIter := %d, c1 := %s, zeroSafe := %s }"
         % (defaults["maxiter"], vlib.lean_rat(Fraction(float(defaults["tol"]))), vlib.lean_rat(Fraction(float(defaults["rho"]))),
-           defaults["btMaxiter"], "true" if defaults["bt"] else "false", defaults["btStartIter"], vlib.lean_rat(Fraction(0.0001))),
+           defaults["btMaxiter"], "true" if defaults["bt"] else "false", defaults["btStartIter"], vlib.lean_rat(Fraction(0.0001)),
+           "true" if defaults["zeroSafe"] else "false"),
+        "",
+        "/-- the branches of `_solver_helper` (wntr/sim/core.py) and the `except` clause around the scipy nonlinear solvers -/",
+        "def helperShape : HelperShape :=",
+        "  { newtonFirst := %s, fsolveByIer := %s, scipySolvers := [%s], scipyCatch := %s, elseRaises := %s }"
+        % ("true" if hshape["newtonFirst"] else "false", "true" if hshape["fsolveByIer"] else "false",
+           ", ".join('"%s"' % n for n in hshape["scipySolvers"]), hshape["scipyCatch"], "true" if hshape["elseRaises"] else "false"),
         "",
         "end Wntr.Newton.Gen",
         "",
@@ -868,6 +986,9 @@ def judge(case, obs, ref):
             return [("scipy-solver-converged-typeerror",
                      "run_sim raised TypeError (%s) after a scipy solver converged (its iteration count is None); solver outcomes %s, backup %s"
                      % (obs["exc"][1], "".join(obs["outs"]), obs["backup"]))]
+        if obs["exc"][0] == "UnboundLocalError" and ("outer_iter" in obs["exc"][1] or "iter_bt" in obs["exc"][1]):
+            return [("newton-zero-limit-unboundlocal",
+                     "run_sim raised UnboundLocalError (%s): NewtonSolver.solve with MAXITER = 0 / BT_MAXITER = 0" % obs["exc"][1])]
         if obs["exc"][0] == "ValueError" and "number of constraints and variables" in obs["exc"][1]:
             return [("model-structure-constraints-vs-variables",
                      "run_sim raised ValueError (%s) at a solve instead of reporting a step that cannot be solved" % obs["exc"][1])]
@@ -932,7 +1053,9 @@ def judge(case, obs, ref):
                         break
                     dev = float(np.max(np.abs(a - b) / (1.0 + np.abs(b)))) if a.size else 0.0
                     PREFIX_DEV[0] = max(PREFIX_DEV[0], dev)
-                    if (k == "status" and not np.array_equal(a, b)) or not dev <= 1e-6:
+                    # the scipy nonlinear solvers stop at their own (looser) tolerance and amplify the run-to-run noise
+                    ptol = 1e-6 if case.get("solver") in (None, "newton") else 1e-3
+                    if (k == "status" and not np.array_equal(a, b)) or not dev <= ptol:
                         out.append(("prefix-values", "%s[%s] rows reported before the failure differ from the reference run (max rel. deviation %.3g)" % (fam, k, dev)))
                         break
     return out
@@ -957,9 +1080,9 @@ def newton_line(rec):
     o = rec["opts"]
     norms = ",".join("nan" if (v is None or v != v or v in (float("inf"), float("-inf"))) else vlib.frac_str(v) for v in rec["norms"]) or "-"
     lin = "".join("1" if b else "0" for b in rec["lin"]) or "-"
-    return "newton %d %s %s %d %d %d %s %d - %s %s" % (
+    return "newton %d %s %s %d %d %d %s %d - %d %s %s" % (
         o["maxiter"], vlib.frac_str(o["tol"]), vlib.frac_str(o["rho"]), o["bt_maxiter"], 1 if o["bt"] else 0, o["bt_start_iter"],
-        vlib.frac_str(0.0001), 1 if rec["empty"] else 0, norms, lin)
+        vlib.frac_str(0.0001), 1 if rec["empty"] else 0, 1 if ZERO_SAFE[0] else 0, norms, lin)
 
 
 def newton_float_replay(rec):
@@ -999,11 +1122,13 @@ def newton_float_replay(rec):
                     break
                 alpha = alpha * o["rho"]
             if it is None:
+                if ZERO_SAFE[0]:
+                    return ("error", "lineSearch", k, ne)
                 return ("crash", "-", 0, ne)
             if it + 1 >= o["bt_maxiter"]:
                 return ("error", "lineSearch", k, ne)
     if k < 0:
-        return ("crash", "-", 0, ne)
+        return ("error", "maxIter", 0, ne) if ZERO_SAFE[0] else ("crash", "-", 0, ne)
     return ("error", "maxIter", k, ne)
 
 
@@ -1142,7 +1267,9 @@ class C16(Check):
         ctx.cov["shape_statements"] = body.count(".act") + body.count(".ite") + body.count(".raise") + body.count(".brk") + body.count(".cont")
         vlib.write_if_changed(os.path.join(vlib.GEN, "RunLoopShape.lean"), gen_shape_lean(fields, body))
         defaults, nbody = newton_shape_from_source(os.path.join(vlib.REPO, "wntr", "sim", "solvers.py"))
-        vlib.write_if_changed(os.path.join(vlib.GEN, "NewtonShape.lean"), gen_newton_lean(defaults, nbody))
+        hshape = helper_shape_from_source(os.path.join(vlib.REPO, "wntr", "sim", "core.py"))
+        ZERO_SAFE[0] = bool(defaults["zeroSafe"])
+        vlib.write_if_changed(os.path.join(vlib.GEN, "NewtonShape.lean"), gen_newton_lean(defaults, nbody, hshape))
 
     # -- one group of cases for a spec ------------------------------------------------------
     def cases_for(self, ctx, spec, exhaustive):
@@ -1156,6 +1283,15 @@ class C16(Check):
         if rng.random() < 0.3:  # a scipy solver as the primary solver (documented: "NewtonSolver or Scipy solver")
             cases.append({"spec": spec, "plan": ({rng.randrange(max(n, 1)): "fake"} if rng.random() < 0.5 else {}), "backup": None,
                           "conv_err": rng.random() < 0.5, "kind": "fsolve-primary", "solver": "fsolve"})
+        if len(spec["nodes"]) <= 5 and rng.random() < (0.5 if ctx.quick else 0.8):
+            # the REAL _solver_helper with scipy nonlinear solvers, as primary and as backup, with faults one level lower
+            name = rng.choice(SCIPY_NONLIN + ["fsolve"])
+            k = rng.randrange(max(n, 1))
+            low = rng.choice(LOW_KINDS)
+            cases.append({"spec": spec, "plan": {k: low}, "backup": None, "conv_err": rng.random() < 0.5, "kind": low + "-primary", "solver": name})
+            cases.append({"spec": spec, "plan": {k: "fake", k + 1: low}, "backup": name, "conv_err": rng.random() < 0.5, "kind": low + "-backup"})
+            cases.append({"spec": spec, "plan": {}, "backup": None, "conv_err": False, "kind": "scipy-primary", "solver": rng.choice(SCIPY_NONLIN)})
+            cases.append({"spec": spec, "plan": {k: "maxiter"}, "backup": rng.choice(SCIPY_NONLIN), "conv_err": rng.random() < 0.5, "kind": "scipy-backup"})
         ks = list(range(n))
         if not exhaustive and len(ks) > 8:
             ks = sorted(rng.sample(ks, 8))
@@ -1202,8 +1338,9 @@ class C16(Check):
                         keep = dict(case["plan"])
                     else:
                         keep = {k: v for k, v in case["plan"].items() if int(k) < last_first}
-                    rk = json.dumps([sorted(keep.items()), case["backup"] if keep else None, case.get("solver")])
-                    if not keep and not case.get("solver"):
+                    clean_ok = all(x == "c" for x in clean["outs"])  # else a backup solver changes what the fault-free run does
+                    rk = json.dumps([sorted(keep.items()), case["backup"] if (keep or not clean_ok) else None, case.get("solver")])
+                    if not keep and not case.get("solver") and (clean_ok or case["backup"] is None):
                         ref = clean
                     else:
                         if rk not in refs:
